@@ -199,12 +199,12 @@ func C19(c *Ctx) *kf.Report {
 	exhaustive := paths
 	// seeded longer sequences (length <= 6) from TLC -simulate
 	sim := runTLC(rep, tlc.Run{SpecDir: c.SpecDir(), Module: "Generic", Cfg: "Generic.cfg", Workers: 1,
-		Consts: map[string]string{"MAXINST": "4", "MAXOPS": "6", "VIAS": `{"direct", "helper", "this-call"}`}, Simulate: fmt.Sprintf("num=%d", c.Pick(100, 1500)), Depth: 8, Seed: c.Seed})
+		Consts: map[string]string{"MAXINST": "4", "MAXOPS": "6", "VIAS": `{"direct", "helper", "this-call"}`}, Simulate: fmt.Sprintf("num=%d", c.Pick(400, 1500)), Depth: 8, Seed: c.Seed})
 	if sim != nil {
 		sg, err := graph.Build(sim.Tagged["INIT"], sim.Tagged["EDGE"])
 		if err == nil {
 			rng := c.Rng()
-			for i := 0; i < c.Pick(1500, 20000); i++ {
+			for i := 0; i < c.Pick(8000, 20000); i++ {
 				_, p := sg.RandomPath(rng, 6)
 				if len(p) > 0 {
 					runPath(p)
